@@ -1,0 +1,19 @@
+// Work counters used by external verification harnesses.
+//
+// Only compiled with `--cfg kurbo_verif`; the crate is unchanged without that flag.
+
+use core::sync::atomic::{AtomicU64, Ordering};
+
+/// Number of loop iterations / recursive calls counted since the last reset.
+pub static WORK: AtomicU64 = AtomicU64::new(0);
+
+/// Count one unit of work.
+#[inline]
+pub fn tick() {
+    WORK.fetch_add(1, Ordering::Relaxed);
+}
+
+/// Read and reset the counter.
+pub fn take() -> u64 {
+    WORK.swap(0, Ordering::Relaxed)
+}
